@@ -2,6 +2,9 @@ SPECIFICATION SSpec
 CONSTANTS
   MaxServices = 4
   Outcomes = {"nil", "err", "panic"}
+  PlainKinds = {"nil", "err", "panic"}
+  FullUpTo = 100
+  PanicKinds = {"panic", "panicerr", "panicdl", "panicnil"}
   OtherSigs = {"HUP", "USR1"}
   ShutSigs = {"INT", "QUIT", "TERM"}
   MaxPre = 2
